@@ -44,7 +44,7 @@ KV_ASSUME = [
 
 def _kv(pid, text):
     return {
-        "families": [{"family": "kv", "chk": "kv_chk_" + pid}],
+        "families": [{"family": "kv", "chk": "kv_chk_" + pid, "corr": "kv_corr_" + pid}],
         "level_text": text,
         "level_note": KV_NOTE,
         "assumptions": KV_ASSUME,
